@@ -28,6 +28,9 @@ func checkC10(p *Prog, r *Report) {
 	c10StartDate(p, r)
 	c10Dueng(p, r)
 	c10Writers(p, r)
+	// schedule dates are text in the configured date format ("all date formats")
+	dateTextRules(p, r, "C10.R9")
+	inputHelpers(p, r, "C10.R10")
 }
 
 // dateEq decomposes a guard  DATE[idx] + off − T == 0  (either sign).
